@@ -1,0 +1,49 @@
+//go:build verif
+// +build verif
+
+package trie
+
+// Structure dump for the verification harness (build tag verif only).
+
+import (
+	"encoding/hex"
+	"strings"
+)
+
+// VerifDump returns the fully resolved structure of the trie as an s-expression:
+// (0) nil, (1 #value), (2 #nibbles child), (3 (child0 ... child16)).
+func (t *Trie) VerifDump() (string, error) {
+	return t.verifDump(t.root, nil)
+}
+
+func (t *Trie) verifDump(n node, prefix []byte) (string, error) {
+	switch n := n.(type) {
+	case nil:
+		return "(0)", nil
+	case valueNode:
+		return "(1 #" + hex.EncodeToString(n) + ")", nil
+	case *shortNode:
+		c, err := t.verifDump(n.Val, append(append([]byte{}, prefix...), n.Key...))
+		if err != nil {
+			return "", err
+		}
+		return "(2 #" + hex.EncodeToString(n.Key) + " " + c + ")", nil
+	case *fullNode:
+		var cs []string
+		for i, ch := range &n.Children {
+			c, err := t.verifDump(ch, append(append([]byte{}, prefix...), byte(i)))
+			if err != nil {
+				return "", err
+			}
+			cs = append(cs, c)
+		}
+		return "(3 (" + strings.Join(cs, " ") + "))", nil
+	case hashNode:
+		rn, err := t.resolveHash(n, prefix)
+		if err != nil {
+			return "", err
+		}
+		return t.verifDump(rn, prefix)
+	}
+	return "(9)", nil
+}
